@@ -20,6 +20,7 @@ func init() {
 		NotCovered:  []string{"races inside go/token.FileSet, go/parser, go/format (standard library)", "resolvers supplied by the user"},
 	}, func(e *Env) {
 		e.RLock()
+		e.RCacheAfterSuccess()
 		e.RReadOnlyResolvers()
 		e.RGlobals()
 		e.RNoGoroutines()
@@ -36,5 +37,6 @@ func init() {
 		e.RPureDecorate()
 		e.RPureRestore()
 		e.RPureUpdateImports()
+		e.RCacheAfterSuccess()
 	})
 }
